@@ -51,6 +51,15 @@ SPECS = [
          ],
          raises={'*': {'ensures': ["raised('e1') or raised('e2')"]}},
          serves=['C06', 'C02', 'C04']),
+    dict(id='S-LambdaScope', text='A${(lambda e1: 0)(1)}B${e1}C<i tal:content="e1 | e2"/>',
+         ensures=[
+             # a lambda parameter is local to the lambda: later expressions still read the
+             # template variable of that name
+             "evals(1) == 2",
+             "evals(2) == (1 if raised('e1') else 0)",
+         ],
+         raises={'*': {'ensures': ["raised('e1') or raised('e2')"]}},
+         serves=['C04'], no_token_posts=True),
     dict(id='S-Interp-off', text='A<p meta:interpolation="off">${e1} $ {x}</p>B',
          ensures=["evals(1) == 0", "S() == S0() + 'A<p>${e1} $ {x}</p>B'"],
          serves=['C06']),
